@@ -3,29 +3,35 @@ from __future__ import annotations
 
 import core
 import gen
-from wire import Toks, ehitem, ehprogs, ehval, elist, p_hitem, p_hprog, p_list
+from wire import Toks, ehitem, ehprogs, ehval, elist, p_hitem, p_hprog, p_hval, p_list
 
 PID = "C17"
 MANIFEST = dict(
-    text="Lean theorems over an inductive type of programs (display v / with tag: body / raise, any nesting, raise anywhere) "
-         "executed by a model that follows Tag.__enter__/__exit__/wrap_displayhook_handler/append as written: C17_restore, "
-         "C17_restore_any, C17_restore_all (sys.displayhook after every with-statement, at every depth and on every exit path, "
-         "is the hook before it — unconditional), C17_reenter, C17_reenter_active (entering a tag whose block is active raises "
-         "RuntimeError and changes nothing), C17_collect / C17_collect_step / C17_collect_outer / C17_collect_final (a tag's "
-         "children afterwards = before ++ normalised values displayed directly in its block, in order, up to the first raise, nested "
-         "tags when their block exits; the recorder's log; untouched elsewhere), C17_child_rules, C17_invalid(+_propagates, "
-         "C17_raise_skips_rest), C17_once / C17_once_outer / C17_once_nobody_else (each entered tag is handed exactly once, at its exit, "
+    text="Lean theorems over an inductive type of programs (display v / with tag: body / raise / give a tag a new child-list object, "
+         "any nesting, raise anywhere) executed by a model that follows Tag.__enter__/__exit__/wrap_displayhook_handler/append as "
+         "written: C17_restore, C17_restore_any, C17_restore_all (sys.displayhook after every with-statement, at every depth and on "
+         "every exit path, is the hook before it — unconditional), C17_reenter, C17_reenter_active (entering a tag whose block is "
+         "active raises RuntimeError and changes nothing), C17_collect / C17_collect_step / C17_collect_outer / C17_collect_final / "
+         "C17_collect_rebind (a tag's children afterwards = before ++ normalised values displayed directly in its block, in order, up "
+         "to the first raise, nested tags when their block exits; the recorder's log; untouched elsewhere), C17_child_rules / _seq / "
+         "_elem / _rejects (None and Ellipsis ignored, _repr_html_ object as HTML, a Tagifiable object kept as the object also when it "
+         "has _repr_html_, TagLists/lists/tuples opened in place at any depth under the rules of append, rejected exactly when an "
+         "invalid value or a nested Ellipsis occurs), C17_invalid / C17_invalid_any (+_propagates, C17_raise_skips_rest), C17_once / "
+         "C17_once_outer / C17_once_nobody_else / C17_once_not_on_failed_enter (each entered tag is handed exactly once, at its exit, "
          "to the hook current at its entry, on every exit path). All by mutual structural induction, for all programs and states. "
-         "Tie: the same program terms are interpreted with real `with tag:` statements and sys.displayhook(v) calls (recorder as "
-         "outermost hook, hook identity sampled around every block) and children, log, flags and exception kind are compared "
-         "with the model and fed to the executable statement (Lean, spec side) for every case.",
+         "Tie: the same program terms are interpreted with real `with tag:` statements and sys.displayhook(v) calls on real objects "
+         "(plain Tags; lists, tuples and subclasses, TagLists, Tagifiable objects, objects with tagify and _repr_html_ incl. a real "
+         "JSXTag; recorder as outermost hook, hook identity sampled around every block) and children, log, flags and exception "
+         "kind are compared with the model and fed to the executable statement (Lean, spec side) for every case.",
     design="DESIGN.md §6 C17",
     note="Guard: the outermost hook is the harness's recorder, which never raises. Modelled, not verified: Python's `with` "
          "protocol itself (__exit__ runs on every exit path, a None result lets the exception propagate, an exception in __exit__ "
-         "replaces the one in flight); isinstance dispatch of the wrapper and of _tagchilds_to_tagnodes on the eight value kinds of "
-         "the model (lists/tuples/TagLists/Tagifiable objects as displayed values are outside the modelled alphabet); str(number) is "
-         "supplied by the interpreter. Observed and modelled as is (not part of the property): __exit__ never clears "
-         "prev_displayhook, so a tag cannot be entered a second time even after its block ended (C17_reenter_exited).",
+         "replaces the one in flight); isinstance dispatch of the wrapper and of _tagchilds_to_tagnodes on the thirteen value kinds "
+         "of the model (MetadataNode/HTMLDependency as a displayed value, and objects that are a list/tuple AND Tagifiable, are "
+         "outside the modelled alphabet); str(number) is supplied by the interpreter. Judged on the property's observables only: the "
+         "children each tag ends up with, the recorder's log, the hook identity around every block and the exception kind — not on "
+         "how a Tag appends internally. Not part of the property and not exercised: whether a tag whose block has ENDED can be "
+         "entered again (the pinned code refuses, Lemmas/Hook.lean `reenter_exited`); programs only re-enter ACTIVE tags.",
     technique="Lean 4 proof by mutual structural induction over block programs with exceptions + differential correspondence "
               "check (exhaustive small programs, random deep programs) + executable statement evaluated on the real run",
 )
@@ -40,29 +46,69 @@ NUM = ("d", ("num", "7"))
 INV = ("d", ("invalid",))
 SELF0 = ("d", ("tagRef", 0))
 RAISE = ("r",)
+TGF = ("d", ("tagifiable", "f"))                       # tagify() only
+TGR = ("d", ("tagifiableRepr", "j"))                   # tagify() and _repr_html_(): JSXTag, widgets
+TL = ("d", ("tagList", [("text", "p"), ("robj", "<o>"), ("trobj", "w")]))
+LST = ("d", ("list", [("text", "x"), ("none",), ("tuple", [("num", "7"), ("reprHtml", "<q>")]), ("tagifiableRepr", "k")]))
+TUP = ("d", ("tuple", [("html", "<b>"), ("list", []), ("tagifiable", "g")]))
+LBAD = ("d", ("list", [("text", "x"), ("tuple", [("none",), ("ellipsis",)])]))   # `...` below top level: TypeError
+LINV = ("d", ("tuple", [("text", "y"), ("invalid",)]))
 
 
 # ------------------------------------------------------------------ exhaustive small scope
-def forests(budget: int, depth: int, nxt: int, leafs):
+def forests(budget: int, depth: int, nxt: int, leafs, active=(), rebind=False):
     """all statement lists with <= budget statements and nesting <= depth, tags numbered in order of first appearance:
-    a block's tag is a fresh one or ANY tag used before (active => re-enter raises; exited => raises too).
+    a block's tag is a fresh one or one whose block is ACTIVE at that point (re-entering raises).  A tag whose block has
+    ended is never entered again: whether that is possible is not part of the property.  With `rebind`, also the
+    statement that gives any tag used so far a new child-list object.
     yields (stmts, n_statements, next_fresh_id)"""
     yield ([], 0, nxt)
     if budget == 0:
         return
-    for first, used1, nxt1 in stmts(budget, depth, nxt, leafs):
-        for rest, used2, nxt2 in forests(budget - used1, depth, nxt1, leafs):
+    for first, used1, nxt1 in stmts(budget, depth, nxt, leafs, active, rebind):
+        for rest, used2, nxt2 in forests(budget - used1, depth, nxt1, leafs, active, rebind):
             yield ([first] + rest, used1 + used2, nxt2)
 
 
-def stmts(budget: int, depth: int, nxt: int, leafs):
+def stmts(budget: int, depth: int, nxt: int, leafs, active=(), rebind=False):
     for l in leafs:
         yield (l, 1, nxt)
+    if rebind:
+        for tid in range(nxt):
+            yield (("k", tid), 1, nxt)
     if depth > 0:
-        for tid in range(nxt + 1):
+        for tid in tuple(active) + (nxt,):
             nxt1 = max(nxt, tid + 1)
-            for body, used, nxt2 in forests(budget - 1, depth - 1, nxt1, leafs):
+            for body, used, nxt2 in forests(budget - 1, depth - 1, nxt1, leafs, tuple(active) + (tid,), rebind):
                 yield (("b", tid, body), 1 + used, nxt2)
+
+
+def reenters_exited(ps, active=(), exited=None) -> bool:
+    """does the program text enter a tag after a block of that tag has ended?  (conservative: dead code counts)"""
+    exited = set() if exited is None else exited
+    for p in ps:
+        if p[0] != "b":
+            continue
+        if p[1] in exited:
+            return True
+        if p[1] not in active:
+            if reenters_exited(p[2], tuple(active) + (p[1],), exited):
+                return True
+            exited.add(p[1])
+        # re-entering an active tag raises: its body does not run, but keep to the conservative reading
+        elif reenters_exited(p[2], active, exited):
+            return True
+    return False
+
+
+def _val_tags(v) -> int:
+    if v[0] == "tagRef":
+        return v[1] + 1
+    if v[0] in ("list", "tuple"):
+        return max([_val_tags(x) for x in v[1]] or [0])
+    if v[0] == "tagList":
+        return max([i[1] + 1 for i in v[1] if i[0] == "tagRef"] or [0])
+    return 0
 
 
 def n_tags(ps) -> int:
@@ -70,8 +116,10 @@ def n_tags(ps) -> int:
     for p in ps:
         if p[0] == "b":
             m = max(m, p[1] + 1, n_tags(p[2]))
-        elif p[0] == "d" and p[1][0] == "tagRef":
-            m = max(m, p[1][1] + 1)
+        elif p[0] == "k":
+            m = max(m, p[1] + 1)
+        elif p[0] == "d":
+            m = max(m, _val_tags(p[1]))
     return m
 
 
@@ -91,28 +139,60 @@ def line_of(ps, init=None) -> str:
 
 
 # ------------------------------------------------------------------ random deep programs
-def rand_val(rng, ntags: int):
+def rand_item(rng, ntags: int):
+    k = rng.random()
+    if k < 0.4:
+        return ("text", gen.rand_text(rng, 4))
+    if k < 0.55:
+        return ("html", rng.choice(gen.HTML_POOL))
+    if k < 0.7:
+        return ("robj", "<o>")
+    if k < 0.8:
+        return ("tobj", rng.choice(["f", "g"]))
+    if k < 0.9:
+        return ("trobj", rng.choice(["j", "w"]))
+    return ("tagRef", rng.randrange(ntags))
+
+
+def rand_val(rng, ntags: int, depth: int = 2, elem: bool = False):
+    """a displayed value; `elem`: an element of a list/tuple (a bad element there makes the whole value rejected, so
+    keep those rare)"""
     r = rng.random()
-    if r < 0.30:
+    if r < 0.24:
         return ("text", gen.rand_text(rng, 6))
-    if r < 0.40:
+    if r < 0.32:
         return ("none",)
-    if r < 0.47:
-        return ("ellipsis",)
-    if r < 0.57:
+    if r < 0.37:
+        return ("text", "e") if elem and rng.random() < 0.8 else ("ellipsis",)
+    if r < 0.45:
         x = rng.choice([0, 1, -3, 42, 10 ** 20, True, False, 1.5, -0.0, 1e100, 2.5e-7, float("inf"), float("nan"), 3.0])
         return ("num", str(x))
-    if r < 0.67:
+    if r < 0.52:
         return ("html", rng.choice(gen.HTML_POOL))
-    if r < 0.80:
+    if r < 0.62:
         return ("reprHtml", rng.choice(gen.HTML_POOL + ["<p>&</p>"]))
-    if r < 0.92:
+    if r < 0.71:
         return ("tagRef", rng.randrange(ntags))
-    return ("invalid",)
+    if r < 0.76:
+        return ("tagifiable", rng.choice(["f", "g", gen.rand_text(rng, 3)]))
+    if r < 0.83:
+        return ("tagifiableRepr", rng.choice(["j", "w", gen.rand_text(rng, 3)]))
+    if r < 0.87:
+        return ("tagList", [rand_item(rng, ntags) for _ in range(rng.randint(0, 3))])
+    if r < 0.95 and depth > 0:
+        return (rng.choice(["list", "tuple"]), [rand_val(rng, ntags, depth - 1, True) for _ in range(rng.randint(0, 4))])
+    if r < 0.95:
+        return ("text", "d")
+    return ("text", "i") if elem and rng.random() < 0.8 else ("invalid",)
 
 
-def rand_prog(rng, ntags: int, depth: int, size: list, p_raise: float, p_inv: float, state: dict):
-    """a statement list; `size` is a one-element budget; `state['next']` = next unused tag"""
+def _is_bad(v) -> bool:
+    return v[0] == "invalid" or (v[0] in ("list", "tuple") and any(x[0] == "ellipsis" or _is_bad(x) for x in v[1]))
+
+
+def rand_prog(rng, ntags: int, depth: int, size: list, p_raise: float, p_inv: float, state: dict, active=()):
+    """a statement list; `size` is a one-element budget; `state['next']` = next unused tag; `active` = the tags whose
+    block we are inside (the only ones, besides fresh ones, a with-statement may name)"""
     out = []
     n = rng.randint(0, 4)
     for _ in range(n):
@@ -122,34 +202,39 @@ def rand_prog(rng, ntags: int, depth: int, size: list, p_raise: float, p_inv: fl
         r = rng.random()
         if depth > 0 and r < 0.45:
             q = rng.random()
-            if q < 0.75 and state["next"] < ntags:
+            if (q < 0.8 or not active) and state["next"] < ntags:
                 t = state["next"]
                 state["next"] += 1
+            elif active:
+                t = rng.choice(active)            # re-enter an active tag: raises RuntimeError
             else:
-                t = rng.randrange(ntags)          # usually a re-enter (active or exited); sometimes a tag not yet used
+                continue
             # bias towards a deep spine
-            out.append(("b", t, rand_prog(rng, ntags, depth - 1, size, p_raise, p_inv, state)))
+            out.append(("b", t, rand_prog(rng, ntags, depth - 1, size, p_raise, p_inv, state, tuple(active) + (t,))))
         elif r < 0.45 + p_raise:
             out.append(RAISE)
+        elif r < 0.50 + p_raise and state["next"] > 0:
+            # a new child-list object for the innermost active tag, an outer one, or any tag used so far
+            out.append(("k", rng.choice(active) if active and rng.random() < 0.8 else rng.randrange(state["next"])))
         else:
             v = rand_val(rng, ntags)
-            if v[0] == "invalid" and rng.random() > p_inv * 10:
+            if _is_bad(v) and rng.random() > p_inv * 10:
                 v = ("text", "k")
             out.append(("d", v))
     return out
 
 
-def rand_spine(rng, ntags: int, depth: int, state: dict, p_raise: float):
+def rand_spine(rng, ntags: int, depth: int, state: dict, p_raise: float, active=()):
     """a program that really reaches nesting `depth`: a chain of fresh blocks with random statements around"""
     size = [rng.randint(3, 12)]
-    pre = rand_prog(rng, ntags, 0, size, 0.0, 0.0, state)
+    pre = rand_prog(rng, ntags, 0, size, 0.0, 0.0, state, active)
     if depth == 0 or state["next"] >= ntags:
-        tail = rand_prog(rng, ntags, 1, [rng.randint(0, 4)], p_raise, 0.05, state)
+        tail = rand_prog(rng, ntags, 1, [rng.randint(0, 4)], p_raise, 0.05, state, active)
         return pre + tail
     t = state["next"]
     state["next"] += 1
-    inner = rand_spine(rng, ntags, depth - 1, state, p_raise)
-    post = rand_prog(rng, ntags, 1, [rng.randint(0, 4)], p_raise / 2, 0.02, state)
+    inner = rand_spine(rng, ntags, depth - 1, state, p_raise, tuple(active) + (t,))
+    post = rand_prog(rng, ntags, 1, [rng.randint(0, 4)], p_raise / 2, 0.02, state, active)
     return pre + [("b", t, inner)] + post
 
 
@@ -158,30 +243,39 @@ def rand_init(rng, ntags: int):
     for _ in range(ntags):
         l = []
         while rng.random() < 0.3:
-            k = rng.random()
-            if k < 0.5:
-                l.append(("text", gen.rand_text(rng, 4)))
-            elif k < 0.7:
-                l.append(("html", rng.choice(gen.HTML_POOL)))
-            elif k < 0.85:
-                l.append(("robj", "<o>"))
-            else:
-                l.append(("tagRef", rng.randrange(ntags)))
+            l.append(rand_item(rng, ntags))
         init.append(l)
     return init
 
 
 # ------------------------------------------------------------------ pretty printer (replays)
+def item_src(i) -> str:
+    return {"text": repr(i[1]), "html": f"HTML({i[1]!r})", "robj": f"ReprObj({i[1]!r})", "tagRef": f"t[{i[1]}]",
+            "tobj": f"TagifyObj({i[1]!r})", "trobj": f"TagifyReprObj({i[1]!r})"}[i[0]]
+
+
+def val_src(v) -> str:
+    k = v[0]
+    if k == "list":
+        return "[" + ", ".join(val_src(x) for x in v[1]) + "]"
+    if k == "tuple":
+        return "(" + "".join(val_src(x) + ", " for x in v[1]) + ")"
+    if k == "tagList":
+        return "TagList(" + ", ".join(item_src(i) for i in v[1]) + ")"
+    return {"none": "None", "ellipsis": "...", "invalid": "object()", "text": repr(v[-1]), "num": v[-1],
+            "html": f"HTML({v[-1]!r})", "reprHtml": f"ReprObj({v[-1]!r})", "tagRef": f"t[{v[-1]}]",
+            "tagifiable": f"TagifyObj({v[-1]!r})", "tagifiableRepr": f"TagifyReprObj({v[-1]!r})"}[k]
+
+
 def py_of(ps, ind="    ") -> str:
     out = []
     for p in ps:
         if p[0] == "r":
             out.append(ind + "raise Boom()")
+        elif p[0] == "k":
+            out.append(ind + f"t[{p[1]}].children = TagList(*t[{p[1]}].children)   # new list object, same nodes")
         elif p[0] == "d":
-            v = p[1]
-            src = {"none": "None", "ellipsis": "...", "invalid": "object()", "text": repr(v[-1]), "num": v[-1],
-                   "html": f"HTML({v[-1]!r})", "reprHtml": f"ReprObj({v[-1]!r})", "tagRef": f"t[{v[-1]}]"}[v[0]]
-            out.append(ind + f"sys.displayhook({src})")
+            out.append(ind + f"sys.displayhook({val_src(p[1])})")
         else:
             out.append(ind + f"with t[{p[1]}]:")
             out.append(py_of(p[2], ind + "    ") if p[2] else ind + "    pass")
@@ -192,26 +286,57 @@ def snippet(line: str) -> str:
     t = Toks(line.split(" ", 1)[1])
     init = p_list(t, lambda t: p_list(t, p_hitem))
     ps = p_list(t, p_hprog)
-    return ("import sys; from htmltools import Tag, HTML\n"
+    kids = "; ".join(f"t[{k}].children = TagList({', '.join(item_src(i) for i in l)})" for k, l in enumerate(init) if l)
+    return ("import sys; from htmltools import Tag, TagList, HTML\n"
             "class Boom(Exception): pass\n"
             "class ReprObj:\n    def __init__(s, h): s.h = h\n    def _repr_html_(s): return s.h\n"
-            f"t = [Tag('div') for _ in range({len(init)})]   # initial children: {init!r}\n"
-            "log = []; saved = sys.displayhook; sys.displayhook = log.append\n"
+            "    def __repr__(s): return f'ReprObj({s.h!r})'\n"
+            "class TagifyObj:          # Tagifiable only\n    def __init__(s, n): s.n = n\n    def tagify(s): return Tag('span', s.n)\n"
+            "    def __repr__(s): return f'{type(s).__name__}({s.n!r})'\n"
+            "class TagifyReprObj(TagifyObj):   # Tagifiable AND self-rendering, like htmltools.JSXTag or a widget\n"
+            "    def _repr_html_(s): return '<i>inert ' + s.n + '</i>'\n"
+            f"t = [Tag('div') for _ in range({len(init)})]\n"
+            + (kids + "   # initial children\n" if kids else "")
+            + "def show(c):   # tags by position (a tag may sit inside itself)\n"
+            "    k = [i for i, x in enumerate(t) if x is c]\n"
+            "    return f't[{k[0]}]' if k else repr(c)\n"
+            "log = []; saved = sys.displayhook; sys.displayhook = rec = log.append\n"
             "try:\n" + (py_of(ps) or "    pass") + "\n"
-            "finally:\n    print(sys.displayhook == log.append, [x.children for x in t], log); sys.displayhook = saved\n")
+            "finally:\n    print('recorder restored:', sys.displayhook is rec)\n"
+            "    print('children:', [[show(c) for c in x.children] for x in t])\n"
+            "    print('recorder log:', [show(v) for v in log]); sys.displayhook = saved\n")
 
 
-def _shrink(f):
-    """cases are evaluated in order of size, so the first failing input is already a smallest one: add the model's
-    answer and a reproduction against the public API"""
-    try:
-        if not f.model:
-            f.model = core.Driver().run([f.line])[0]
-        if f.line.startswith("hook_run") and not f.py:
-            f.py = snippet(f.line)
-    except Exception:
-        pass
-    return f
+def snippet1(line: str) -> str:
+    """one value through Tag.append / through the display-hook wrapper alone"""
+    opn, rest = line.split(" ", 1)
+    v = p_hval(Toks(rest))
+    n = max(2, _val_tags(v))
+    head = snippet("hook_run " + elist(["[ ]"] * n) + " [ ]").split("def show(c)")[0]
+    if opn == "hook_append":
+        return head + f"x = Tag('span'); x.append({val_src(v)}); print(list(x.children))\n"
+    return (head + "from htmltools._core import wrap_displayhook_handler\n"
+            f"got = []; wrap_displayhook_handler(got.append)({val_src(v)}); print(got)   # what the wrapper hands on\n")
+
+
+def _shrinker(ck):
+    def _shrink(f):
+        """cases are evaluated in order of size, so the first failing input is already a smallest one; prefer a whole
+        program run (real `with` blocks) over a single-value case when both fail; add the model's answer and a
+        reproduction against the public API"""
+        try:
+            if not f.line.startswith("hook_run"):
+                runs = [g for g in ck.failures if g.kind == "property" and g.line.startswith("hook_run")]
+                if runs:
+                    f = runs[0]
+            if not f.model:
+                f.model = core.Driver().run([f.line])[0]
+            if not f.py:
+                f.py = snippet(f.line) if f.line.startswith("hook_run") else snippet1(f.line)
+        except Exception:
+            pass
+        return f
+    return _shrink
 
 
 # ------------------------------------------------------------------ runner
@@ -221,14 +346,20 @@ CORPUS = [
     [("b", 0, [RAISE])], [("b", 0, [INV])], [("b", 0, [("b", 0, [])])],
     # a tag displayed inside its own block (cycle through a reference), and inside a nested one
     [("b", 0, [SELF0, ("b", 1, [SELF0, ("d", ("tagRef", 1))])])],
-    # re-entering: active at distance 1..3, exited sibling, exited then inside another
+    # re-entering an active tag at distance 1..3
     [("b", 0, [("b", 1, [("b", 2, [("b", 0, [TXT])]), TXT]), TXT]), TXT],
-    [("b", 0, [TXT]), ("b", 0, [TXT]), TXT],
-    [("b", 0, [("b", 1, []), ("b", 2, [("b", 1, [TXT]), TXT]), TXT])],
+    [("b", 0, [("b", 1, []), ("b", 2, [("b", 2, [TXT]), TXT]), TXT])],
     # exceptions at depth with siblings before/after; invalid at top level is only logged
     [INV, ELL, NONE, ("b", 0, [NONE, ELL, REPR, HTM, NUM, ("b", 1, [TXT, INV, TXT]), TXT]), TXT],
     [("b", 0, [("b", 1, [("b", 2, [("b", 3, [RAISE])])])]), TXT],
     [],
+    # sequences and Tagifiable objects under the normal child rules, inside a block and at top level (logged raw)
+    [LST, TGR, ("b", 0, [TGF, TGR, TL, LST, TUP, ("b", 1, [TGR, LST]), TGR])],
+    [("b", 0, [TXT, LBAD, TXT])], [("b", 0, [LST, LINV, TXT])],
+    [("b", 0, [("d", ("list", [("tagRef", 0), ("tagRef", 1), ("tagList", [("tagRef", 1)])]))])],
+    # the block's tag (or an enclosing one) gets a new child-list object part-way through (seeded change C17-3)
+    [("b", 0, [TXT, ("k", 0), TXT, NONE, ("b", 1, [TXT]), LST])],
+    [("b", 0, [TXT, ("b", 1, [("k", 0), ("k", 1), TXT, ("b", 2, [])]), TXT])],
 ]
 
 
@@ -241,35 +372,52 @@ def run(tier: str) -> int:
     cases = []  # (line, nontrivial, tag)
 
     def add_prog(ps, tag, init=None):
+        # whether a tag whose block has ENDED can be entered again is not part of the property (the pinned code
+        # refuses; a maintainer may well allow it): no program depends on it
+        assert not reenters_exited(ps), ps
         cases.append((line_of(ps, init), has_block(ps), tag))
 
     # 0. the value rules, one value at a time (Tag.append and the wrapper in isolation)
     vals = [("none",), ("ellipsis",), ("invalid",), ("tagRef", 0), ("tagRef", 1)]
+    vals += [p[1] for p in (TGF, TGR, TL, LST, TUP, LBAD, LINV)]
+    vals += [("list", []), ("tuple", []), ("tagList", []), ("list", [("none",)]), ("tuple", [("ellipsis",)]),
+             ("list", [("list", [("list", [("tagifiableRepr", "deep")])])]), ("tuple", [("tagRef", 1), ("tagRef", 1)])]
+    vals += [rand_val(rng, 2, 3) for _ in range(ck.budget(300, 3000))]
     strs = ["", "a", "<&>", "x\ny", "é😀"] + [gen.rand_text(rng, 8) for _ in range(ck.budget(20, 200))]
     for s in strs:
-        vals += [("text", s), ("html", s), ("reprHtml", s)]
+        vals += [("text", s), ("html", s), ("reprHtml", s), ("tagifiable", s), ("tagifiableRepr", s),
+                 ("list", [("reprHtml", s), ("text", s)]), ("tagList", [("robj", s), ("trobj", s)])]
     for x in [0, 1, -1, True, False, 1.5, -0.0, 1e22, 1e-7, float("inf"), float("-inf"), float("nan"), 10 ** 30]:
         vals.append(("num", str(x)))
     for v in vals:
         cases.append(("hook_append " + ehval(v), True, "append"))
         cases.append(("hook_wrap " + ehval(v), True, "wrap"))
-        add_prog([("b", 0, [("d", v)])] if v[0] != "tagRef" else [("b", 2, [("d", v)])], "single")
+        add_prog([("b", 2, [("d", v)])], "single")
     # 1. corpus
     for ps in CORPUS:
         add_prog(ps, "corpus")
     # 2. exhaustive small scope: a raise of every kind at every possible point
     ex = []
+    SEQ = "Tagifiable object / object with tagify and _repr_html_ / TagList / nested list / tuple / list with a nested Ellipsis / tuple with an invalid value"
     if tier == "quick":
-        scopes = [(6, 4, [TXT, INV, RAISE], "text / invalid value / raise"),
-                  (5, 4, [TXT, NONE, ELL, REPR, INV, RAISE, SELF0], "text / None / Ellipsis / _repr_html_ object / invalid / raise / the first tag itself")]
+        scopes = [(6, 4, [TXT, INV, RAISE], False, "text / invalid value / raise"),
+                  (5, 4, [TXT, NONE, ELL, REPR, INV, RAISE, SELF0], False,
+                   "text / None / Ellipsis / _repr_html_ object / invalid / raise / the first tag itself"),
+                  (5, 3, [TXT, TGR, LST, LBAD, RAISE], False,
+                   "text / object with tagify and _repr_html_ / nested list / list with a nested Ellipsis / raise"),
+                  (4, 3, [TXT, TGF, TGR, TL, LST, TUP, LBAD, LINV, RAISE], False, "text / raise / " + SEQ),
+                  (5, 3, [TXT, RAISE], True, "text / raise / a new child-list object for any tag used so far")]
     else:
-        scopes = [(6, 4, [TXT, NONE, REPR, INV, RAISE], "text / None / _repr_html_ object / invalid / raise"),
-                  (5, 5, [TXT, NONE, ELL, REPR, HTM, NUM, INV, RAISE, SELF0], "all nine leaf kinds"),
-                  (6, 6, [TXT, INV, RAISE], "text / invalid value / raise (nesting to 6)")]
+        scopes = [(6, 4, [TXT, NONE, REPR, INV, RAISE], False, "text / None / _repr_html_ object / invalid / raise"),
+                  (5, 5, [TXT, NONE, ELL, REPR, HTM, NUM, INV, RAISE, SELF0], False, "the nine scalar leaf kinds"),
+                  (6, 6, [TXT, INV, RAISE], False, "text / invalid value / raise (nesting to 6)"),
+                  (5, 4, [TXT, TGF, TGR, TL, LST, TUP, LBAD, LINV, RAISE], False, "text / raise / " + SEQ),
+                  (6, 3, [TXT, TGR, RAISE], True,
+                   "text / object with tagify and _repr_html_ / raise / a new child-list object for any tag used so far")]
     seen = set()
-    for (n, d, leafs, what) in scopes:
+    for (n, d, leafs, rb, what) in scopes:
         k = 0
-        for f, _, _ in forests(n, d, 0, leafs):
+        for f, _, _ in forests(n, d, 0, leafs, (), rb):
             l = line_of(f)
             k += 1
             if l in seen:
@@ -278,7 +426,7 @@ def run(tier: str) -> int:
             ex.append((l, has_block(f), "exhaustive"))
         ck.exhaustive_scopes.append({
             "scope": f"all programs with <= {n} statements, nesting <= {d}, leaves: {what}; every with-statement over a fresh tag or "
-                     "any tag used before (active or already exited)", "programs": k, "exhaustive": True})
+                     "a tag whose block is active at that point", "programs": k, "exhaustive": True})
     cases += ex
     # 3. random deep programs (nesting up to 10), random initial children, rich values
     for _ in range(ck.budget(6000, 120000)):
@@ -299,7 +447,7 @@ def run(tier: str) -> int:
         if im.startswith("raised"):
             ck.tagc("outcome-" + im.split(" ", 2)[1])
     ck.correspond(holds=True)
-    return ck.finish(shrink=_shrink)
+    return ck.finish(shrink=_shrinker(ck))
 
 
 def replay(body: dict) -> int:
@@ -313,8 +461,7 @@ def replay(body: dict) -> int:
     impl = ops.run_line(line)
     drv = core.Driver()
     model, holds = drv.run([line, f"holds {PID} {line} | {impl}"])
-    if line.startswith("hook_run"):
-        print(snippet(line))
+    print(snippet(line) if line.startswith("hook_run") else snippet1(line))
     print("line :", line)
     print("impl :", impl, "   (outcome, recorder current again, per-with hook restored, recorder log, children per tag)")
     print("model:", model)
